@@ -346,6 +346,16 @@ def apply_op(world, op):
     elif k == "setbase":
         world[op["i"]].setLatBase(op["base"])
         return op["i"]
+    elif k == "drift":
+        # `count` consecutive tiny updates of one parameter (a refinement that is converging): via the property or setLatPar
+        L = world[op["i"]]
+        for _ in range(op["count"]):
+            v = getattr(L, op["name"]) + op["delta"]
+            if op.get("via") == "setpar":
+                L.setLatPar(**{op["name"]: v})
+            else:
+                setattr(L, op["name"], v)
+        return op["i"]
     else:
         raise ValueError(k)
     return len(world) - 1
